@@ -42,7 +42,9 @@ Definition one_per_name (S : list N) : Prop :=
 (* C01: what it means for a selection [S] to be a solution of problem [P];
    [ex] is the set of solvables enjoying the documented soft-requirement
    exemption from their own package's lock/exclusion list -- and from nothing
-   else. *)
+   else.  Which solvables that is depends on the selection: SpecDec.exempt
+   (accepted soft requirements whose package is not requested through a version
+   set by the root or by another selected solvable). *)
 Definition valid (P : problem) (S ex : list N) : Prop :=
   deps_ok S (Known (pr_reqs P) (pr_cons P)) /\
   (forall s, In s S -> deps_ok S (p_deps U s)) /\
